@@ -211,9 +211,12 @@ class C13World(World):
             op["ctx"] = self._desc(streams, "ctx", rows=rows)
         if self.cfg["faulty"]:
             if fault.chance(0.15):
-                op["interrupt"] = fault.randint(1, 60 * (10 if self.cfg.get("opcode") else 1))
+                # log-uniform over the whole length of short and long calls (a big flow has thousands of line events)
+                import math
+                hi = 4000 * (8 if self.cfg.get("opcode") else 1)
+                op["interrupt"] = max(1, int(math.exp(fault.random() * math.log(hi))))
             elif fault.chance(0.12):
-                op["reject"] = fault.pick(["shape", "domain", "ctxrows"])
+                op["reject"] = fault.pick(["shape", "domain", "domain1", "nan1", "ctxrows"])
         return op
 
     # ------------------------------------------------------------ argument pool
@@ -342,6 +345,10 @@ class C13World(World):
             bad = (x.detach() * 0 + 37.5).clone()
             bad[0].fill_(-37.5)
             x = self._adopt("rej-domain-%d" % op["x"]["seed"], bad, client)
+        elif rej in ("domain1", "nan1") and x is not None:
+            bad = x.detach().clone()
+            bad.reshape(-1)[-1] = 37.5 if rej == "domain1" else float("nan")   # a single offending element, late in the batch
+            x = self._adopt("rej-%s-%d-%d" % (rej, op["x"]["seed"], op["x"]["rows"]), bad, client)
         elif rej == "ctxrows" and ctx is not None:
             bad = torch.cat([ctx.detach(), ctx.detach()[:1]], dim=0).clone()
             ctx = self._adopt("rej-ctx-%d" % op["ctx"]["seed"], bad, client)
